@@ -383,7 +383,7 @@ type v6val struct {
 	readv bool
 	// unnamedDecl: the client this address was advertised to (and never bound to) later sent a DECLINE, answered
 	// Success, that did not name it. Nothing was declined, so the address has to stay in circulation; the server
-	// quarantines whatever its pool holds for the DUID (KF-C02-15). Classification evidence only.
+	// quarantines whatever its pool holds for the DUID (KF-C02-16). Classification evidence only.
 	unnamedDecl bool
 }
 
@@ -546,7 +546,9 @@ func (m *v6mon) onGiveUp(duid, label string, named []string, decline bool, now t
 				st.kind = "forgotten" // the server is free to keep or drop what the message did not name
 				continue
 			}
-			if !now.Before(st.expiry) {
+			if now.After(st.expiry) {
+				// (at the very instant the lifetime ends the binding still counts as held, as in onAdvertise: the server
+				// processes a RELEASE of a lease record whatever its age, so the value is given up either way)
 				continue
 			}
 			if decline && k[0] == 'A' {
@@ -1060,17 +1062,16 @@ func (x *v6run) leasedBy(duid string) func(string) bool {
 }
 
 // heldForAdvertisedClient: classification evidence for KF-C02-14 (never decides whether something is a violation):
-// the server's pool holds value v for the client duid and the lease table has no lease of that client naming it.
-func (x *v6run) heldForAdvertisedClient(v, duid string) bool {
+// held = the server's pool holds value v for the client duid; leased = the lease table has a lease of that client naming it.
+func (x *v6run) heldForAdvertisedClient(v, duid string) (held, leased bool) {
 	p := x.srv.VerifPools()
-	held := false
 	switch v[0] {
 	case 'A':
 		held = "A:"+p.AddrAllocated[duid] == v
 	case 'P':
 		held = "P:"+p.PrefixAllocated[duid] == v
 	}
-	return held && !x.leasedBy(duid)(v)
+	return held, x.leasedBy(duid)(v)
 }
 
 func (x *v6run) after() bool {
@@ -1172,13 +1173,25 @@ func (x *v6run) demand(now time.Time, second bool) {
 		case st.kind == "released":
 			reason = "released"
 		}
-		if reason == "abandoned-advertise" && !x.heldForAdvertisedClient(v, st.owner) {
+		if reason == "abandoned-advertise" {
 			// KF-C02-14 is "the Advertise's pool allocation for that client is never given back": the pool must still
-			// hold the value for the client it was advertised to, and that client must have no lease naming it. A
-			// value that is out of circulation in any other way was lost by another cause (never listed).
-			reason = "lost-after-advertise"
-			if st.unnamedDecl {
-				reason = "advertised-then-quarantined-by-decline-not-naming-it"
+			// hold the value for the client it was advertised to, and that client must have no lease naming it.
+			switch held, leased := x.heldForAdvertisedClient(v, st.owner); {
+			case held && !leased:
+			case held && leased:
+				// the server still has a lease of that client naming the value (one timestamp per client: renewing the
+				// address keeps the prefix alive and vice versa), so the Advertise repeated a binding and allocated
+				// nothing: like any binding it has to be back after one more valid lifetime, not before
+				reason = ""
+				if second {
+					reason = "expired"
+				}
+			default:
+				// out of circulation in any other way: lost by another cause (never listed)
+				reason = "lost-after-advertise"
+				if st.unnamedDecl {
+					reason = "advertised-then-quarantined-by-decline-not-naming-it"
+				}
 			}
 		}
 		if reason == "" {
@@ -1443,6 +1456,10 @@ func v6Scenarios() []v6scenario {
 			{Kind: "solicit", C: 0, NA: true, IAID: 1, Rapid: true}, {Kind: "decline", C: 0, NA: true, IAID: 1}, {Kind: "solicit", C: 1, NA: true, IAID: 1}}},
 		{"advertise-never-requested", sigV6NotAvail + "abandoned-advertise", v6base, []v6op{both("solicit", 0), {Kind: "advance", Delta: "valid"}}},
 		{"advertise-then-release", sigV6NotAvail + "abandoned-advertise", v6base, []v6op{both("solicit", 0), both("release", 0)}},
+		// KF-C02-16: the RENEW (answered NoBinding) makes the client forget the Advertise; its DECLINE then carries an
+		// IA_NA without an address, and the server quarantines the advertised address all the same
+		{"decline-not-naming-the-advertised-address", sigV6NotAvail + "advertised-then-quarantined-by-decline-not-naming-it", v6base, []v6op{
+			{Kind: "solicit", C: 0, NA: true, IAID: 1}, {Kind: "renew", C: 0, NA: true, IAID: 1}, {Kind: "decline", C: 0, NA: true, IAID: 1}}},
 	}
 }
 
